@@ -21,6 +21,20 @@ fn version_model(rng: &mut Rng, k: u32) -> Model {
     m
 }
 
+/// Version k of a C15 history: normally a fresh random data set with a marker origin; every fourth version is its
+/// predecessor with only a router key added or removed (no origin changes at all).
+fn next_version(rng: &mut Rng, k: u32, prev: Option<&Model>) -> Model {
+    match prev {
+        Some(p) if k % 4 == 3 => {
+            let mut m = p.clone();
+            let key = crate::pgen::router_key(1000 + k);
+            if !m.keys.remove(&key) { m.keys.insert(key); }
+            m
+        }
+        _ => version_model(rng, k),
+    }
+}
+
 /// Parses the origins of a /json body into canonical item strings.
 pub fn parse_json_origins(body: &[u8]) -> Result<BTreeSet<String>, String> {
     let v: Value = serde_json::from_slice(body).map_err(|e| format!("invalid JSON: {e}"))?;
@@ -132,7 +146,7 @@ fn run_c15(ctx: &mut Ctx, rep: &mut Report) {
     }
     let n_versions = ctx.tier.pick(24u32, 4000);
     let mut versions: Vec<Model> = Vec::new();
-    for k in 0..n_versions { versions.push(version_model(&mut rng, k)); }
+    for k in 0..n_versions { let v = next_version(&mut rng, k, versions.last()); versions.push(v); }
     let versions = Arc::new(versions);
     let stop = Arc::new(AtomicBool::new(false));
     let installed = Arc::new(Mutex::new(0u32));
@@ -517,7 +531,9 @@ fn run_c17(ctx: &mut Ctx, rep: &mut Report) {
     let hooks = Hooks::install();
     hooks.set_record(false);
     let mut rng = ctx.rng("c17");
-    let mut srv = match TestServer::start(&ctx.scratch, |_| {}) {
+    // a small history: after two changes every further one evicts a change set (the notification must not depend on
+    // the history still growing)
+    let mut srv = match TestServer::start(&ctx.scratch, |c| { c.history_size = 2; }) {
         Ok(s) => s, Err(e) => { rep.inconclusive(format!("server start: {e}")); return }
     };
     let http = srv.http_addr;
